@@ -522,6 +522,7 @@ LAMBDA_REF = {
     '{(2*x)+y}': _guard(lambda x, y: D['+'](need(D['*'](I(2), x)), y)),
     '{x,,y}': _guard(lambda x, y: D[','](x, need(M[','](y)))),
     '{x+y+z}(1;;)': _guard(lambda y, z: D['+'](I(1), need(D['+'](y, z)))),
+    '{(#x)-#y}': _guard(lambda x, y: D['-'](need(M['#'](x)), need(M['#'](y)))),
     # monads
     '{x}': lambda x: verbs.val(x) if x[0] in 'ircsyl' else verbs.NJ,
     '{-x}': M['-'], '{|x}': M['|'], '{#x}': M['#'],
